@@ -72,7 +72,9 @@ def cases_expr(facts, e, depth=0):
         if sub is None:
             return None
         if len(sub) == 1 and sub[0][0] == ():
-            return [((), x)]
+            # nothing to split; keep the operand's expansion (a combinator over a known constructor, e.g.
+            # `Some(d).map_or(NULL, clone)`, reduces to one unconditional case that is not the operand as written)
+            return [((), x if sub[0][1] is x[2][0] or sub[0][1] == strip_refs(x[2][0]) else ("agg", x[1], [sub[0][1]]))]
         return [(c2, ("agg", x[1], [v2])) for c2, v2 in sub]
     if x[0] != "call" or not x[1]:
         return [((), x)]
